@@ -40,6 +40,7 @@ def _props_of(r):
         out.add(MODE_PROP.get(r.get("mode"), "C16"))
         if r.get("mode") in ("before", "after"):
             out.add("C16")
+            out.add("C15")      # before/after code that fires at another moment is not where C15 puts it either
         return out
     if c in ("splice", "locals_changed"):
         if modes & ALT:
